@@ -1,0 +1,35 @@
+//go:build verif
+// +build verif
+
+package valid
+
+// Verification hooks (build tag "verif"). Nothing here is compiled into a normal build.
+
+// VerifLRUHook, when set, is called by every LRUCache method at its access point
+// (after the method has taken whatever lock it takes).
+var VerifLRUHook func(l *LRUCache, op string)
+
+func verifLRU(l *LRUCache, op string) {
+	if h := VerifLRUHook; h != nil {
+		h(l, op)
+	}
+}
+
+// VerifLockState probes the cache mutex: "N" nobody holds it, "R" held shared, "W" held exclusively.
+// Exact only while a single goroutine uses the cache.
+func (l *LRUCache) VerifLockState() string {
+	if l.rwMu.TryLock() {
+		l.rwMu.Unlock()
+		return "N"
+	}
+	if l.rwMu.TryRLock() {
+		l.rwMu.RUnlock()
+		return "R"
+	}
+	return "W"
+}
+
+// VerifState returns list length, index size and the delete counter without locking.
+func (l *LRUCache) VerifState() (listLen, mapLen, delMapCount int) {
+	return l.list.Len(), len(l.nodeMap), l.delMapCount
+}
